@@ -81,15 +81,15 @@ M.main([sys.argv[1]])
 
 def cases(tier, seed):
     out = []
-    n = 30 if tier == 'quick' else 300
+    n = 30 if tier == 'quick' else 600
     for i in range(n):
         out.append({'name': 'history-%d' % i, 'kind': 'history',
                     'seed': [seed, 161, i]})
-    n = 10 if tier == 'quick' else 60
+    n = 10 if tier == 'quick' else 120
     for i in range(n):
         out.append({'name': 'schedule-%d' % i, 'kind': 'schedule',
                     'seed': [seed, 162, i]})
-    n = 4 if tier == 'quick' else 30
+    n = 4 if tier == 'quick' else 60
     for i in range(n):
         out.append({'name': 'fresh-%d' % i, 'kind': 'fresh',
                     'seed': [seed, 163, i]})
